@@ -64,7 +64,8 @@ def shapeOf (l : List Site) : List (String × String × String × List String) :
 def genShapeOk : Bool :=
   shapeOf rwlockSites == expectedRwShape &&
   c_READ_LOCKED == 1 && c_MASK == MASK && c_WRITE_LOCKED == WRITE_LOCKED && c_MAX_READERS == MAX_READERS &&
-  c_READERS_WAITING == RW && c_WRITERS_WAITING == WW && futexWaitPrivate == futexWakePrivate
+  c_READERS_WAITING == RW && c_WRITERS_WAITING == WW && futexWaitPrivate == futexWakePrivate &&
+  decide (0 ≤ rwlock_spin)
 
 theorem gen_shape_ok : genShapeOk = true := by decide
 
@@ -77,7 +78,7 @@ def genCfg : Cfg :=
     writeAcq := isAcq (ordAt 7 0) && isAcq (ordAt 8 0) && isAcq (ordAt 10 0)
     readRel := isRel (ordAt 3 0)
     writeRel := isRel (ordAt 9 0)
-    spinMax := 100 }
+    spinMax := rwlock_spin.toNat }
 
 theorem gen_cfg_good : genCfg.Good := by decide
 
